@@ -47,6 +47,7 @@ Inductive call :=
 | CPad (x tail : list N)
 | CUnpad (d : list N)
 | CRound (x : list N)
+| CRoundMem (x tail : list N)   (* PadInPlace inside a re-used buffer whose spare capacity holds [tail], then UnpadInPlace *)
 | CPrefix (ss : list (list N))
 | CTrim (ss : list (list N))
 | CRead (vals : list N) (chunks : list nat)
@@ -59,6 +60,9 @@ Definition decode (e : list N) : option call :=
     if Nat.ltb (length rest) k then None else Some (CPad (firstn k rest) (skipn k rest))
   | 2%N :: d => Some (CUnpad d)
   | 3%N :: x => Some (CRound x)
+  | 8%N :: lx :: rest =>
+    let k := N.to_nat lx in
+    if Nat.ltb (length rest) k then None else Some (CRoundMem (firstn k rest) (skipn k rest))
   | 4%N :: n :: rest => option_map CPrefix (take_strs (N.to_nat n) rest)
   | 5%N :: n :: rest => option_map CTrim (take_strs (N.to_nat n) rest)
   | 6%N :: nv :: rest =>
@@ -80,6 +84,7 @@ Definition exec (c : call) : list N :=
   | CPad x tail => pad_mem x tail
   | CUnpad d => enc_uout (unpad d)
   | CRound x => enc_uout (unpad (pad_mem x []))
+  | CRoundMem x tail => enc_uout (unpad (pad_mem x tail))
   | CPrefix ss => prefix ss
   | CTrim ss => enc_strs (trim ss)
   | CRead vals chunks =>
@@ -179,6 +184,7 @@ Definition mon (m : unit) (e o : list N) : unit * list (nat * nat) :=
    | None => []
    | Some (CPad x _) => if ok_pad x o then [] else [(19, 1)]
    | Some (CRound x) => if ok_round x o then [] else [(19, 2)]
+   | Some (CRoundMem x _) => if ok_round x o then [] else [(19, 2)]
    | Some (CUnpad d) => if ok_unpad d o then [] else [(19, 3)]
    | Some (CPrefix ss) => if ok_prefix ss o then [] else [(19, 4)]
    | Some (CTrim ss) => if ok_trim ss o then [] else [(19, 5)]
